@@ -197,18 +197,35 @@ func ruleAllocGuard(p *Prog, r *RuleResult) {
 						if !ok {
 							continue
 						}
-						switch bo.Op {
-						case token.LSS, token.GTR, token.LEQ, token.GEQ:
+						// the guard must bound a chain value from above by something that is not itself stream data:
+						// the make is dominated by the edge on which chain < other (or chain <= other)
+						var upperOnTrue bool
+						switch {
+						case t.chain[bo.X] && !t.chain[bo.Y]:
+							switch bo.Op {
+							case token.LSS, token.LEQ:
+								upperOnTrue = true
+							case token.GTR, token.GEQ:
+								upperOnTrue = false
+							default:
+								continue
+							}
+						case t.chain[bo.Y] && !t.chain[bo.X]:
+							switch bo.Op {
+							case token.GTR, token.GEQ:
+								upperOnTrue = true
+							case token.LSS, token.LEQ:
+								upperOnTrue = false
+							default:
+								continue
+							}
 						default:
 							continue
 						}
-						if !t.chain[bo.X] && !t.chain[bo.Y] {
-							continue
-						}
-						for si := range b.Succs {
-							if edgeDominates(f, edge{b, si}, ms.Block()) {
-								guarded = true
-							}
+						_, pos := condAtom(ifi.Cond)
+						si := succFor(pos, upperOnTrue)
+						if edgeDominates(f, edge{b, si}, ms.Block()) {
+							guarded = true
 						}
 					}
 					if guarded {
